@@ -431,7 +431,11 @@ class Runner:
         impl = run_worker([exe, leg.name], cases, leg.per_case_s, leg.jobs, env=env)
         if leg.canon_impl:
             impl = [leg.canon_impl(x) for x in impl]
-        mod = run_worker([self.model_exe, leg.name], cases, 0.05)
+        mexe = self.model_exe
+        for pre, e in getattr(self, "model_exes_by_prefix", {}).items():
+            if leg.name.startswith(pre):
+                mexe = e
+        mod = run_worker([mexe, leg.name], cases, 0.05)
         rows = []
         for c, i, m in zip(cases, impl, mod):
             parts = m.split("\t")
@@ -439,6 +443,17 @@ class Runner:
                 parts.append("-")
             rows.append((c, i, parts[0], parts[1], parts[2]))
         return rows
+
+    def add_model(self, prefix, pid):
+        """legs whose name starts with `prefix` are evaluated by the extracted model of property `pid`"""
+        with Lock("build.lock" if not ALT else "build-" + os.path.basename(ALTDIR) + ".lock"):
+            rc, out, dt = coq_make(["Extract/Extract%s.vo" % pid])
+            ok, out2, exe = build_ocaml(pid)
+        if rc != 0 or not ok:
+            self.build_problems.append(("model-build", "ocaml driver of %s" % pid, (out + out2)[-3000:]))
+        if not hasattr(self, "model_exes_by_prefix"):
+            self.model_exes_by_prefix = {}
+        self.model_exes_by_prefix[prefix] = exe
 
     def classify(self, leg, row):
         """-> ('ok'|'known'|'violation'|'corr'|'corr+violation'|'unlisted', finding_or_None)"""
@@ -677,9 +692,11 @@ class Runner:
 
 
 def standard_main(pid, legs, tier, seed, ties=(), need_race=False, trusted=None, assumptions=None, extra=None,
-                  coq_targets=None):
+                  coq_targets=None, other_models=None):
     r = Runner(pid, tier, seed)
     ok = r.build(ties=ties, need_race=need_race, coq_targets=coq_targets)
+    for pre, opid in (other_models or {}).items():
+        r.add_model(pre, opid)
     can_run = r.impl_exe and r.model_exe and not any(k in ("corr-build", "model-build") for k, _, _ in r.build_problems)
     if can_run:
         legs_by_name = {l.name: l for l in legs}
